@@ -47,6 +47,30 @@ CLAIMED.update({
                   "Every rejection over multi-line corpora (LF/CR/CRLF injected at blank-space positions): offset within the text and printed line/column equal to Position(text, offset).", "4 (C19)"),
 })
 
+CLAIMED.update({
+    "C08": _trace("TLA+ normalized-path grammar (NormPath.tla) and Locate; re-query records and range-compressed per-code-point records trace-validated by TLC",
+                  "Nodes from seeded queries on documents with nasty member names: location walked from the root (same object), path() = NormalizedPath(location), path re-queried to exactly that node, values()/paths()/items() agree; every code point U+0000..U+10FFFF as a member name (sampled in quick, all in thorough), grouped into uniform ranges that TLC checks with a quantifier over the range.", "4 (C08)"),
+    "C09": _trace("TLA+ string-literal decoder as a character-stepping state machine (StringLit.tla) model-checked against the functional decoder (T7a-c); every machine state replayed into compile(); per-code-point ranges and surrogate boundary literals trace-validated by TLC",
+                  "TLC explores the decoder machine over a 29-symbol alphabet (length 3/4), a 13-symbol escape alphabet (length 4/6) and by simulation over the hex/surrogate alphabet (length 13); each state (body, expected decoded string or reject) is replayed: accept/reject and the decoded name, observed through name selection and string comparison. Every code point raw / \\uXXXX lower / upper / surrogate pair in both quote styles, range-compressed.", "4 (C09)"),
+    "C14": dict(technique="TLA+ state machine of the public API (System.tla): TLC enumerates all histories to a depth (abstract state + last operation) and random walks; each history replayed step by step on the real objects",
+                text="Every history of {compile, apply, find via environment / module, register a function, create an environment subclass} over 3 environments x 6 queries x 3 documents up to 3 (quick) / 4 (thorough) operations, plus random walks of 25 operations, carries the expected response of each operation computed by Eval.tla; the real objects are stepped along each: response, deep snapshots of all documents and every environment's registry compared after every operation.",
+                note=_TRACE_NOTE + " Hidden state is only detectable if it changes a response, a document or a registry within the explored histories.", design_ref="3.8, 4 (C14)"),
+    "C15": _trace("entry-point agreement records (7-14 public call paths per query/document) trace-validated by TLC against Eval!Find",
+                  "For valid queries every path must realise Eval!Find's (items, tail): find = apply = list(finditer), find_one = first-or-None; for invalid queries every path raises the same JSONPathError class; recursion-limit environments included.", "4 (C15)"),
+    "C16": dict(technique="TLA+ state machine of k live iterators (Iters.tla): TLC enumerates every interleaving of next()/abandon (schedule kept in the state); each complete schedule replayed into real iterators; threaded runs trace-validated",
+                text="All interleavings over configurations with 2-3 live iterators (same compiled query, same environment, different environments; filters, nested filters, descendant segments) are replayed item by item; IterIndependence is also a TLC invariant. Threaded runs (2/4/8 threads, switch interval 1e-6, hand-over of one iterator between two threads) are validated as per-iterator sequences, so any merge order is accepted.",
+                note=_TRACE_NOTE + " Pre-emptive thread schedules are sampled, not enumerated.", design_ref="4 (C16)"),
+    "C17": dict(technique="TLA+ definition of the permitted orderings (DescentDefs!AllowedResults) and of the randomised visitor as a state machine (Descent.tla, T8a-c model-checked); the implementation's own random-choice tree explored exhaustively by an enumerating chooser and its result sets trace-validated by TLC for validity and exhaustiveness",
+                text="For each (query, document) the set of distinct results over ALL outcomes of the implementation's shuffles/samples is compared by TLC with AllowedResults: subset (only permitted orderings) and, when the choice tree was explored completely, equality (every permitted ordering is produced). Documents include the witness shapes (root with three container children) that size-bounded enumeration does not reach; the model's own visitor is checked against LinExts on the same shapes (T8b on all branches, T8c set equality).",
+                note=_TRACE_NOTE + " The chooser rebinds the name `random` in segments/selectors; any other source of randomness is reported as a machinery failure.", design_ref="3.7, 4 (C17)"),
+    "C18": dict(technique="TLA+ traversal machines over graph-shaped data (Descent.tla): outcome, progress, bound and termination model-checked on all 2-node graphs incl. every cycle; every terminal state materialised as real cyclic objects and run in both modes (all random outcomes); chains around the limit trace-validated",
+                text="T8d_Outcome (raised iff the unfolding's container nesting exceeds the limit, identically in both modes), T8d_Progress/T8d_Bounded (bounded time) and T8d_Terminates (liveness under fairness) are checked by TLC; each (graph, limit, mode) is then run for real with three queries, the nondeterministic mode under every outcome of the random choices; chains of depth limit-1/limit/limit+1 for limits up to 120 and limits beyond the interpreter's recursion limit are validated by TLC against JsonVal!Nesting.",
+                note=_TRACE_NOTE + " Bounded time/memory of the Python code is observed (step bound from the model, wall-clock guard), not proved.", design_ref="3.7, 4 (C18)"),
+    "C20": dict(technique="TLA+ phase machine of the CLI (Cli.tla, T12 model-checked over all 960 configurations); every terminal state run for real (in-process main() and subprocess)",
+                text="All 6 query classes x 5 document classes x inline/file query x file/stdin document x stdout/file output x --pretty x --debug: exit status, output (must decode to exactly find(q, doc).values()), stderr shape (empty / one line / traceback iff --debug), no partial result.",
+                note=_TRACE_NOTE + " Operating-system I/O faults and argparse's own errors are out of scope.", design_ref="3.9, 4 (C20)"),
+})
+
 NOT_YET = {}
 
 
